@@ -966,3 +966,58 @@ func Expand(t *Term, limit int) string {
 }
 
 var _ = bits.Len
+
+// Make rebuilds a node of the given operator through the folding constructors.
+func (s *TermStore) Make(t *Term, a []*Term) *Term {
+	switch t.Op {
+	case OpNot:
+		return s.Not(a[0])
+	case OpAnd:
+		return s.And(a[0], a[1])
+	case OpOr:
+		return s.Or(a[0], a[1])
+	case OpIte:
+		return s.Ite(a[0], a[1], a[2])
+	case OpEq:
+		return s.Eq(a[0], a[1])
+	case OpAdd, OpSub, OpMul, OpUDiv, OpURem, OpSDiv, OpSRem, OpBAnd, OpBOr, OpBXor, OpShl, OpLShr, OpAShr, OpULt, OpULe, OpSLt, OpSLe:
+		return s.bin(t.Op, a[0], a[1])
+	case OpBNot:
+		return s.BNot(a[0])
+	case OpNeg:
+		return s.Neg(a[0])
+	case OpZExt:
+		return s.Resize(a[0], t.Sort.Width(), false)
+	case OpSExt:
+		return s.Resize(a[0], t.Sort.Width(), true)
+	case OpTrunc:
+		return s.Resize(a[0], t.Sort.Width(), false)
+	case OpFAdd, OpFSub, OpFMul, OpFDiv, OpFLt, OpFLe, OpFEq:
+		return s.fbin(t.Op, a[0], a[1])
+	case OpFNeg:
+		return s.FNeg(a[0])
+	case OpFAbs:
+		return s.FAbs(a[0])
+	case OpFSqrt:
+		return s.FSqrt(a[0])
+	case OpFIsNaN:
+		return s.FIsNaN(a[0])
+	case OpFIsInf:
+		return s.FIsInf(a[0])
+	case OpFFromS:
+		return s.FFromInt(a[0], true, t.Sort)
+	case OpFFromU:
+		return s.FFromInt(a[0], false, t.Sort)
+	case OpFToS:
+		return s.FToInt(a[0], true, t.Sort.Width())
+	case OpFToU:
+		return s.FToInt(a[0], false, t.Sort.Width())
+	case OpFToF:
+		return s.FToF(a[0], t.Sort)
+	case OpFOfBits:
+		return s.FOfBits(a[0])
+	case OpUF:
+		return s.UF(t.Name, t.Sort, a...)
+	}
+	return t
+}
